@@ -264,11 +264,11 @@ REGISTRY = {
         "trusted": [
             "modelled: a job as a network of replicas over bounded FIFO channels (Model/Net.v: blocking send on a full channel, blocking receive on empty wanted channels); the marker-level replica r_sem (counts FlushAndRestart / Terminate per side, broadcasts them in End's order, forwards data batches, reads only the side that has not ended the round); the detailed marker accounting of Start (Model/Start.v) and of the two-input Start's select (Model/BinaryStart.v)",
             "the marker-level replica is an abstraction of Start + operator chain + End that is read off the code and justified by the operator-level theorems (C04_start_*, C04_binary_*, C02/C05); it is tied to the engine end to end by whole-job runs; the static premise dag_ok of the theorems is checked (dag_okb, inside Coq) on the execution graphs the real scheduler derives for the generated acyclic jobs",
-            "covered by the unconditional theorems: every acyclic job on ONE host (channels per (consumer replica, previous block), any fan-in/fan-out, self-joins, any capacity >= 1, any data). NOT covered: loops (feedback edges; Model/Loop.v and C10, whole-job runs) and multi-host runs, where remote connections are multiplexed per (block pair, host pair): the model then has reachable deadlocks (C04_mux_deadlock_in_model, C04_mux_join_deadlock_in_model); the second shape was reproduced on the engine and is known finding F13 (harness/src/props/muxjoin.rs)",
+            "covered by theorems: every acyclic job on ONE host unconditionally (channels per (consumer replica, previous block), any fan-in/fan-out, self-joins, any capacity >= 1, any data), and every acyclic MULTI-HOST job (connections multiplexed per block pair and host pair, blocking demultiplexers) provided no side of a two-input block has more producers than its channel holds (mcap_ok; engine: at most 16 producer replicas per input of a join/merge/zip). Without that condition the model has reachable deadlocks (C04_mux_deadlock_in_model, C04_capacity_condition_deadlock); the second shape was reproduced on the engine and is known finding F13 (harness/src/props/muxjoin.rs). NOT covered in general: loops (feedback edges) — instances only (C04_replay_instance_no_deadlock for every routing, C04_iterate_*), Model/Loop.v and C10, whole-job runs",
             "trusted: thread scheduling fairness, flume channels, TCP, JoinHandle::join",
         ],
         "assumptions": ["finite sources; user functions terminate; static well-formedness dag_ok of the execution graph (decidable; it excludes exactly the start-up panic of known finding F11: a consumer replica without producer)"],
-        "level_text": "Proof: for every acyclic network of marker-level replicas without demultiplexers (every non-iterative one-host job), every capacity, data volume and schedule, no reachable state is a deadlock, every execution is finite and ends with all replicas exited (C04_dag_no_deadlock, C04_dag_job_terminates: global counting invariant over channels + the generic level argument C04_no_deadlock); block inputs are proved to keep reading until every producer's Terminate arrived, to emit Terminate exactly once and last, and to block only on empty sides that still owe a marker. Completeness of each sink is C01's theorem. Tied to the code by whole jobs on the real engine (loops, side inputs, diamonds, empty inputs, inputs larger than the total channel capacity, all batch modes, local and multi-host) under a watchdog, results compared with the sequential meaning. Partial: loops and multiplexed multi-host connections are outside the network theorem.",
+        "level_text": "Proof: for every acyclic network of marker-level replicas without demultiplexers (every non-iterative one-host job), every capacity, data volume and schedule, no reachable state is a deadlock, every execution is finite and ends with all replicas exited (C04_dag_no_deadlock, C04_dag_job_terminates: global counting invariant over channels + the generic level argument C04_no_deadlock); the same for multi-host networks with multiplexed connections and blocking demultiplexers when no input of a two-input block has more producers than its channel capacity (C04_multi_host_no_deadlock, C04_multi_host_job_terminates), a condition that cannot be dropped (C04_capacity_condition_deadlock = known finding F13); block inputs are proved to keep reading until every producer's Terminate arrived, to emit Terminate exactly once and last, and to block only on empty sides that still owe a marker. Completeness of each sink is C01's theorem. Tied to the code by whole jobs on the real engine (loops, side inputs, diamonds, empty inputs, inputs larger than the total channel capacity, all batch modes, local and multi-host) under a watchdog, results compared with the sequential meaning. Partial: loops are covered by instances only; the marker-level replica is an abstraction tied to the engine end to end.",
         "level_note": "Trusted: Coq kernel/vm_compute, network model (tied to the engine by whole-job runs under a watchdog, by dag_okb on the real scheduler's graphs and by the engine replays of the two model deadlocks), harness watchdogs. Known findings F9 (iterate hang), F11, F12, F13 (multi-host join deadlock). No axioms.",
         "explanation": "C04_* proved on the network model (all acyclic one-host jobs); whole jobs run on the engine under a watchdog.",
     },
